@@ -533,7 +533,7 @@ func init() {
 		Level:       "other",
 		Explanation: "Decides the immutability sentence and the 'malformed => error' clause structurally: no method of the CAS-backed leaf types reaches a storage write or changes its digest; VirtualOpenSelf's complete decision table (both variants agree) refuses every open with write bits or truncation; write/allocate never succeed; size changes are refused first; every child inserted from a Directory message is dominated by name, duplicate and digest validation, created leaves are recorded for unlinking, and a lazily loaded directory only marks itself loaded after success. Fidelity of the materialised tree for every DAG and exploration order is not decided.",
 		Assumptions: []string{"handle-allocator wrappers only forward through the embedded interface", "path.NewComponent and digest parsing are correct"},
-		Rules:       []RuleFunc{c17NoWriter, c17Refuse, c17Validate, c17CacheKey, freshMkdir, c17IdentityFields, c17KeyParam, c17KeyComplete},
+		Rules:       []RuleFunc{c17NoWriter, c17Refuse, c17Validate, c17CacheKey, freshMkdir, c17IdentityFields, c17KeyParam, c17KeyComplete, c17ShortReadIsError},
 	})
 }
 
